@@ -1,6 +1,7 @@
 package main
 
 import (
+	"bytes"
 	"fmt"
 	"reflect"
 	"strconv"
@@ -50,6 +51,30 @@ func opRoundtrip(p []string) string {
 	if merr != nil {
 		return "I=-/-/err O=ok"
 	}
+	// the other roads to the same bytes: a long-lived Marshaller writing to a sink that offers nothing but Write, and
+	// (with an atlas that has no entries) the helpers that take no atlas at all; they must all agree with the one above
+	{
+		pw := &plainWriter{}
+		e2, p2 := safely(func() error { return refmt.NewMarshallerAtlased(eopts, pw, a.atl).Marshal(src.Interface()) })
+		if p2 || e2 != nil || !bytes.Equal(pw.b, bs) {
+			return fmt.Sprintf("I=%s/-/err O=viol:marshaller-into-a-plain-writer-differs:%s", hexOrDash(bs), hexOrDash(pw.b))
+		}
+		if a.id == 0 {
+			var hb []byte
+			e3, p3 := safely(func() error {
+				var e error
+				if p[0] == "json" {
+					hb, e = refmt.Marshal(eopts, src.Interface())
+				} else {
+					hb, e = cbor.Marshal(src.Interface())
+				}
+				return e
+			})
+			if p3 || e3 != nil || !bytes.Equal(hb, bs) {
+				return fmt.Sprintf("I=%s/-/err O=viol:atlas-less-helper-differs:%s", hexOrDash(bs), hexOrDash(hb))
+			}
+		}
+	}
 	dst := reflect.New(t)
 	uerr, up := safely(func() error { return refmt.UnmarshalAtlased(dopts, bs, dst.Interface(), a.atl) })
 	if up {
@@ -60,6 +85,11 @@ func opRoundtrip(p []string) string {
 	}
 	return fmt.Sprintf("I=%s/%s/ok O=ok", hexOrDash(bs), dumpValue(dst.Elem()))
 }
+
+// plainWriter offers Write and nothing else
+type plainWriter struct{ b []byte }
+
+func (w *plainWriter) Write(p []byte) (int, error) { w.b = append(w.b, p...); return len(p), nil }
 
 // types whose values the round-trip property quantifies over, per atlas
 func roundtripTypes(a *atlasCfg) []reflect.Type {
@@ -94,6 +124,17 @@ func genRoundtrip(tier string, seed uint64) {
 					}
 					emit("roundtrip %s %d %d %s %s %s", f, a.id, tid(t), ln, ind, v)
 				}
+			}
+		}
+	}
+	// deep nesting (past the initial capacities of every stack in the codecs and the object layer), both formats, with
+	// and without indentation
+	for _, d := range []int{9, 17, 31, 33, 64, 65, 100} {
+		for _, dv := range deepValues(d) {
+			for _, aid := range []int{1, 3} {
+				emit("roundtrip cbor %d %d nil - %s", aid, tid(dv.t), dv.vd)
+				emit("roundtrip json %d %d nil - %s", aid, tid(dv.t), dv.vd)
+				emit("roundtrip json %d %d 0a 09 %s", aid, tid(dv.t), dv.vd)
 			}
 		}
 	}
@@ -170,6 +211,25 @@ func genTags(tier string, seed uint64) {
 				emit("unmbytes cbor %d %d 82%s%s", aid, sl, km, tail)
 				emit("unmbytes cbor %d %d 82%s%s", aid, sl, tail, km)
 				emit("unmbytes cbor %d %d 83%s%s%s", aid, sl, km, tail, km)
+			}
+		}
+	}
+	// a tagged transform whose serial form is a LONG composite (the tag belongs on its first token only), at top level and
+	// inside untyped slots
+	{
+		comp := reflect.TypeOf(TrComp{})
+		sl := reflect.TypeOf([]interface{}{})
+		for _, n := range []int{2, 127, 128, 129, 255, 256, 257, 300, 600} {
+			var parts []string
+			for i := 0; i < n; i++ {
+				parts = append(parts, fmt.Sprintf("i%d", i%7))
+			}
+			v := "S([" + strings.Join(parts, ",") + "])"
+			for _, aid := range []int{1, 2, 3} {
+				emit("roundtrip cbor %d %d nil - %s", aid, tid(comp), v)
+				if aid != 1 {
+					emit("roundtrip cbor %d %d nil - [I%d:%s,I%d:%s]", aid, tid(sl), tid(comp), v, tid(comp), v)
+				}
 			}
 		}
 	}
